@@ -7,7 +7,7 @@ META = {
     "technique": "Coq proofs over a Gallina transcription of <MP>.shape / _result_shape_dtype_struct / the Jacobian nesting convention + vm_compute correspondence against real executions on 4 devices x 4 interfaces x 5 diff methods",
     "design_ref": "DESIGN.md §3 C32",
     "text": "Kernel-checked theorems (Props/C32.v) state, for ALL shot lists, measurement lists, wire counts, batch sizes and parameter-shape lists: a single measurement is returned unwrapped, several measurements give a tuple with one entry per measurement, a shot vector adds an outer tuple with one entry per shot copy and each copy has exactly the structure of a plain execution with that shot count, broadcasting adds one leading axis of the batch size to every array leaf (a counts dictionary becomes a tuple of B dictionaries), a batch of circuits gives one entry per circuit, and a Jacobian has the nesting of the result with, at every leaf, the parameter axes appended (tuple over parameters unless there is exactly one). The expected structure is a function of the request only (theorem shape_depends_only_on_request is true by construction of the model); that the real stack never lets the device, interface or differentiation method influence the structure is decided by the tie: on every run the model is evaluated inside Coq on generated requests and compared with the shape tree of what QNodes, qp.execute, qp.jacobian / jax.jacobian / torch.autograd.functional.jacobian, the JacobianProductCalculator classes and jax_jit._result_shape_dtype_struct / _jac_shape_dtype_struct actually return on default.qubit, default.mixed, reference.qubit and null.qubit; a direct oracle additionally requires all configurations of one request to agree with each other.",
-    "note": "QuantumScript.shape does not exist at the pinned commit; jax_jit._result_shape_dtype_struct (the in-repo statement of a tape's result structure) is transcribed instead and is itself compared with the model. The device/interface/diff-method independence is NOT a theorem about PennyLane code: it is established only for the generated configurations of each run (tie K). Shot specifications are expanded in Python (expansion semantics are C44's subject). Counts dictionaries are opaque leaves (their key sets are not compared). Not covered: lightning devices (not installed), tensorflow, jax.jit tracing, mid-circuit-measurement statistics, classical shadows, entropy/purity/mutual-info measurements, Jacobians of state/density-matrix/sample outputs, second derivatives, Jacobians of broadcast tapes under parameter-shift (NotImplementedError in PennyLane), autograd/torch Jacobians of nested outputs (those frameworks cannot differentiate nested tuples). _jac_shape_dtype_struct is transcribed with its quirk (parameters outside the shot-copy tuple for one measurement with a shot vector, theorem jac_struct_quirk_refuted); that input is unreachable because device derivatives require analytic execution.",
+    "note": "QuantumScript.shape does not exist at the pinned commit; jax_jit._result_shape_dtype_struct (the in-repo statement of a tape's result structure) is transcribed instead and is itself compared with the model (mode struct), as is _jac_shape_dtype_struct (mode jacstruct). The device/interface/diff-method independence is NOT a theorem about PennyLane code: it is established only for the generated configurations of each run (tie K). Documented device behaviour modelled by substitution, not alarmed: qp.state() on default.mixed is answered with density_matrix over all device wires (devices/qubit_mixed/measure.py), so for that device the harness hands the model KDM(all wires) and keeps those cases out of the cross-device comparison. KNOWN findings (fixed keys, raised only for exactly that cause): a broadcast axis of size 1 is squeezed away (a) with finite shots for expval/var/probs (math.squeeze in process_samples) and (b) analytically for the expectation of a Hamiltonian/LinearCombination (math.squeeze in the sum-of-terms measurement) on default.qubit/default.mixed/reference.qubit, while null.qubit, other observables and the in-repo structure function keep it; broadcast-parameter Jacobians are therefore generated with batch size >= 2 only. Shot specifications are expanded in Python (expansion semantics are C44's subject). Counts dictionaries are opaque leaves (key sets not compared; null.qubit's all_outcomes key set differs). Python lists and tuples are both read as tuples. Not covered: lightning devices (not installed), tensorflow, jax.jit tracing, mid-circuit-measurement statistics, classical shadows, entropy/purity/mutual-info measurements, Jacobians of state/density-matrix/sample outputs, second derivatives, Jacobians of broadcast tapes under parameter-shift/finite-diff (NotImplementedError in PennyLane), autograd/torch Jacobians of nested outputs (those frameworks cannot differentiate nested tuples), empty measurement lists. _jac_shape_dtype_struct is transcribed with its quirk (parameters outside the shot-copy tuple, theorem jac_struct_quirk_refuted); that input is unreachable because device derivatives require analytic execution. In the quick tier jax executions are budgeted (jax traces/compiles per call; default.mixed under jax takes seconds each).",
     "assumptions": ["num_device_wires is part of the request (wire-less probs/sample/state use the device's wire count)",
                     "parameter arguments are dense arrays of fixed shape; exactly-one-parameter requests are passed unwrapped (argnums=0 / a single tensor)",
                     "only configurations inside PennyLane's support matrix are generated (harness table valid_cfg, e.g. no backprop/adjoint with finite shots, adjoint on default.qubit only for expectation values); for those an exception counts as a mismatch with the model"],
@@ -278,8 +278,8 @@ def gen_cases(ctx):
     q = ctx.tier == "quick"
     SLOW.update({"jax_res": 10, "jax_jac": 12, "mixedjax": 2, "jax_backprop": 2, "mixed_jac": 6} if q else
                 {"jax_res": 10 ** 6, "jax_jac": 10 ** 6, "mixedjax": 24, "jax_backprop": 24, "mixed_jac": 10 ** 6})
-    n_res, k_res = (28, 4) if q else (220, 7)
-    n_jac, k_jac = (13, 4) if q else (90, 7)
+    n_res, k_res = (24, 4) if q else (220, 7)
+    n_jac, k_jac = (11, 4) if q else (90, 7)
     n_tj = 1 if q else 5
     n_batch = 6 if q else 40
     cases = []
